@@ -661,7 +661,9 @@ class Parser:
     def primary(self):
         t = self.next()
         if t.kind == 'num':
-            return self.mk(ast.Constant, t, value=0)
+            # the value matters only as a subscript (x[0], x[x.length - 1]): decimal integers keep their value, every other
+            # numeric literal is a float (never taken for a position)
+            return self.mk(ast.Constant, t, value=int(t.val) if t.val.isdigit() else 0.5)
         if t.kind == 'str':
             return self.mk(ast.Constant, t, value=t.val)
         if t.kind == 'regex':
